@@ -3,7 +3,7 @@
 //@ defs: -DXV_STR_EXACT
 //@ flags: --unwind 6
 //@ bounded: list built by <= 3 real slist_append() calls from strings of 0..3 characters; probe string of 0..3 characters
-//@ props: C10
+//@ props: C10 C09
 //@ expect: assertion>=1 canary=3
 #include "_unit.h"
 #include "_list.h"
